@@ -32,6 +32,16 @@ Theorem C20_gate :
 Proof. exact gate. Qed.
 Print Assumptions C20_gate.
 
+(* ... hence, without any reference to time: whatever rules are ever stored for the origin of a
+   requested URL allow that URL (and some are stored). *)
+Theorem C20_no_disallowed_request :
+  forall cfg s, c_robots cfg = true -> reachable cfg s ->
+  forall w u cur hop, In (EvReq w u cur hop) (g_trace s) ->
+  (exists w' r, In (EvStored w' (u_origin cur) r) (g_trace s)) /\
+  forall w' r, In (EvStored w' (u_origin cur) r) (g_trace s) -> is_allowed r (c_ua cfg) (u_text cur) = true.
+Proof. exact no_disallowed_request. Qed.
+Print Assumptions C20_no_disallowed_request.
+
 (* NOT REQUESTED AGAIN ONCE OBTAINED: once rules are stored for an origin, no robots.txt
    acquisition for it begins and no request of a robots.txt session for it goes on the wire -
    for every interleaving (the per-origin fetch lock closes the concurrent first-visit window). *)
@@ -178,8 +188,8 @@ Definition ex_u (t : string) : url := {| u_origin := ex_o1; u_text := s2l t |}.
 Definition ex_cfg : config := {| c_robots := true; c_ua := ex_ua; c_max_redirects := 20; c_workers := 2 |}.
 Definition ex_labels : list label :=
   [ LPick 0 (ex_u "http://h1/a"); LPick 1 (ex_u "http://h1/b"); LCheck 0 true; LCheck 1 true; LLock 0;
-    LRobotsSend 0; LRobotsResp 0 (Resp 200 false None ex_body); LLock 1; LFetchSend 0;
-    LFetchResp 0 (FRRedirect (ex_u "http://h1/secret/x")); LCheck 0 true; LFetchSend 1; LFetchResp 1 FRDone ].
+    LRobotsSend 0; LRobotsResp 0 (Resp 200 false None ex_body); LLock 1; LFetchSend 0 true;
+    LFetchResp 0 (FRRedirect (ex_u "http://h1/secret/x")); LCheck 0 true; LFetchSend 1 true; LFetchResp 1 FRDone ].
 Example C20_gate_nonvacuous :
   option_map g_trace (run_labels ex_cfg g_init ex_labels) =
     Some [ EvReq 1 (ex_u "http://h1/b") (ex_u "http://h1/b") false;
